@@ -82,7 +82,12 @@ fn gen_tree(p: &mut Pool, depth: usize) -> OptSpec {
     } else {
         fields.push(a);
     }
-    OptSpec::plain(Spec::Seq(fields))
+    let mut o = OptSpec::plain(Spec::Seq(fields));
+    // some levels print their usage when they are given nothing at all
+    if p.rng.chance(1, 4) {
+        o.fallback_to_usage = true;
+    }
+    o
 }
 
 pub fn run_case(case: &mut Case) {
